@@ -151,6 +151,7 @@ def main(tier, seed):
         elif q.verdict == "unknown":
             rep.inconclusive_("discounted_reward_to_go", "unknown")
     rep.functions.append({"site": "discounted_reward_to_go", "mode": "real code object executed on z3 reals (no control flow on values)"})
+    _reward_to_go_integer_rewards(rep, tier, seed)
 
     # ------------------------------------------------------------ A2C batch preparation
     import gymnasium as gym
@@ -226,6 +227,31 @@ def main(tier, seed):
     rep.add_queries(sess)
     rep.samples = [o["name"] for o in rep.obligations if o["kind"] == "obligation"][:12]
     return rep.finish()
+
+
+def _reward_to_go_integer_rewards(rep, tier, seed):
+    """'For all reward sequences' includes integer-typed rewards (many environments return Python ints): E2 run of the
+    real function with integer-valued symbolic rewards and a real discount; numpy's dtype rules are kept by the
+    allocation shim (an array allocated 'like' integer data truncates what is written into it)."""
+    from e2_pysym.core import sym_int, sym_real
+    from e2_pysym.npshim import NpShim
+    from props.e2common import E2Report, overlay
+    from rl_blox.algorithm import reinforce
+    e2 = E2Report(PROP, tier, seed)
+    e2.r = rep
+
+    def prog(ctx):
+        n = 3
+        with overlay(reinforce, np=NpShim(typed=True)):
+            rs = [sym_int(f"ri{i}", -3, 3) for i in range(n)]
+            g = sym_real("gamma_i", 0, 1)
+            out = reinforce.discounted_reward_to_go(list(rs), g)
+        ctx.check(len(out) == n, "reward-to-go:one-return-per-step")
+        for t in range(n):
+            nxt = out[t + 1] if t + 1 < n else 0
+            ctx.check(out[t] == rs[t] + g * nxt, "reward-to-go:recurrence-holds-for-integer-typed-rewards")
+    e2.run("discounted_reward_to_go[integer-typed rewards]", prog, fn="rl_blox.algorithm.reinforce.discounted_reward_to_go",
+           site_of=lambda label: f"discounted_reward_to_go:{label}")
 
 
 def _subtrajectory_signals(rep, sess, tier, seed):
